@@ -10,7 +10,7 @@ EXTENDS Store, Json
 VARIABLES l, ok
 tvars == <<vars, l, ok>>
 Trace == ndJsonDeserialize("trace.ndjson")
-MCPrefixOf(k) == CASE k \in {1, 2, 3} -> "a" [] k \in {4, 5} -> "b" [] OTHER -> "ab"
+MCPrefixOf(k) == CASE k \in {1, 2, 3, 4} -> "a" [] k \in {5, 6} -> "b" [] OTHER -> "ab"   \* a/1 a/1/x a/2 a/3 b/1 b/2 ab/1
 
 V(x) == IF x = "" THEN NoVal ELSE x
 Pairs(seq) == [i \in 1..Len(seq) |-> <<seq[i].k, V(seq[i].v)>>]
